@@ -86,6 +86,7 @@ fn run(r: &mut Run) -> Result<(), MachineryError> {
     text_space(r, "C07/text-rich", &[L, SP, HY, TAB, ZW, NB, OP, CL, EM, E2, NL, D], t.pick(3, 5), &g, M_C07, WidthMode::Display, 3)?;
     char_context_space(r, "C07/all-characters-in-context", M_C07, vec![Alg::FirstFit])?;
     escape_scan_space(r, "C07/escape-grammar-scan", M_C07, vec![Alg::FirstFit])?;
+    word_seq_space(r, "C07/word-sequences", M_C07, vec![Alg::FirstFit])?;
     scale::frag_scale(r, "C07/long-periodic", "C07")?;
     scale::text_scale(r, "C07/long-paragraphs", "C07")?;
     words_through_wrap_algorithm(r)
